@@ -52,7 +52,8 @@ func HC18_mixing() {
 	var bp model.BiasProps = props
 	bias := NewCriteriaMixing(rt.Generators, c18manager())
 	snap := rt.Snapshot(current)
-	res := bias.Apply(current, current, &bp, &listener)
+	original := vh.Params(vh.Alternatives("orig.", vh.AltIds[:2], crit), []string{"b"}, crit, majority.MajorityHeuristicParams{Weights: vh.Weights("orig.w.", crit, 0.125, 4)}) // differs from current: must not be used
+	res := bias.Apply(original, current, &bp, &listener)
 	rt.Assert("C18.mix.received-state-untouched", rt.Same(snap, current))
 	if K < 2 {
 		rt.Reach("too-few-criteria")
@@ -175,7 +176,7 @@ func HC18_mixing_repeat() {
 	rt.Reach("applied-twice")
 }
 
-//verif:harness HC18_index_fp mode=FP reach=checked
+//verif:harness HC18_index_fp mode=FP reach=checked feas_timeout_ms=60000
 func HC18_index_fp() {
 	n := rt.IntRange("n", 2, 7)
 	crit := vh.Criteria(n, "gain")
